@@ -36,3 +36,38 @@ contract(M, 'TemplateModel.get_merge_map', props=['C08'], params={}, fields={'sp
              ('every-template-a-spike-came-from', 'all(any(result[0][%s[s]][j] == %s[s] for j in range(len(result[0][%s[s]]))) for s in range(len(%s)))' % (_SC, _ST, _SC, _SC)),
              ('no-template-listed-twice', 'all(all(result[0][c][i] < result[0][c][j] for i in range(len(result[0][c])) for j in range(i + 1, len(result[0][c]))) for c in range(len(result[0])))'),
              ('ids-without-spikes-reported-as-empty', 'all(iff(any(result[1][j] == c for j in range(len(result[1]))), len(result[0][c]) == 0) for c in range(len(result[0])))')])
+
+# ---- cluster_waveforms: "A cluster stemming from a single template carries that template's waveform unchanged; a cluster stemming from
+#      several carries, on the channels of its dominant template, the ... mean of its templates' ... waveforms" (placement; the mean itself
+#      is the assumed callee get_cluster_mean_waveforms, bounded) ------------------------------------------------------------------------
+from pyvc.contract import declare_ufunc
+declare_ufunc('zero_cell', ['int'], 'elem')
+declare_ufunc('mean_wave', ['int', 'bool'], 'elem')        # what get_cluster_mean_waveforms(c, unwhiten=False) returns for cluster c: waveform ...
+declare_ufunc('mean_chans', ['int', 'bool'], 'elem')       # ... and the channels it is given on
+declare_ufunc('set_cols', ['elem', 'elem', 'elem', 'int'], 'elem')   # row s of a block after block[:, ids] = X (opaque row-wise column update)
+declare_ufunc('swapaxes', ['elem', 'int', 'int'], 'elem')
+declare_class('MeanWaveforms', None, fields={'mean_waveforms': 'elem', 'channel_ids': 'elem'})
+declare_class('DenseStoreW', None, fields={'data': 'cube[elem]'})
+declare_class('ClusterStore', None, fields={'data': 'cube[elem]', 'cols': 'none'})
+contract(M, 'TemplateModel.get_cluster_mean_waveforms', kind='assumed', params={'self': 'obj[TemplateModel]', 'cluster_id': 'int', 'unwhiten': 'bool'}, result='obj[MeanWaveforms]',
+    ensures=['result.mean_waveforms == mean_wave(cluster_id, unwhiten) and result.channel_ids == mean_chans(cluster_id, unwhiten)'],
+    note='the weighted mean of the templates of a cluster on the channels of its dominant template (floating point: bounded only)')
+contract('<lib>', 'Bunch', variant='cluster-store', kind='assumed', params={}, kwargs='kw', cases=[{'kw': 'rec[data:cube[elem],cols:none]'}], result='obj[ClusterStore]',
+    result_from={'fields_of': 'kw', 'cls': 'ClusterStore'}, ensures=[])
+_MM, _TD = 'self.merge_map', 'self.sparse_templates.data'
+_CW = lambda D, c: ('(implies(len(%s[%s]) == 1, all(%s[%s][s] == %s[%s[%s][0]][s] for s in range(self.n_samples_waveforms))) and '
+                    'implies(len(%s[%s]) == 0, all(%s[%s][s] == zero_cell(self.n_channels) for s in range(self.n_samples_waveforms))) and '
+                    'implies(len(%s[%s]) > 1, all(%s[%s][s] == set_cols(zero_cell(self.n_channels), mean_chans(%s, False), swapaxes(mean_wave(%s, False), 0, 1), s) for s in range(self.n_samples_waveforms))))'
+                    % (_MM, c, D, c, _TD, _MM, c, _MM, c, D, c, _MM, c, D, c, c, c))
+contract(M, 'TemplateModel.cluster_waveforms', props=['C08'], params={},
+    fields={'n_samples_waveforms': 'int', 'n_channels': 'int', 'cluster_ids': 'arr[int]', 'merge_map': 'rag[int]', 'sparse_templates': 'obj[DenseStoreW]'},
+    requires=[('shapes', 'self.n_samples_waveforms >= 0 and self.n_channels >= 0 and width(%s) == self.n_samples_waveforms and depth(%s) == self.n_channels' % (_TD, _TD)),
+              ('one-entry-per-cluster-id-up-to-the-maximum', 'len(self.cluster_ids) >= 1 and all(self.cluster_ids[i] < len(%s) for i in range(len(self.cluster_ids))) and any(self.cluster_ids[i] == len(%s) - 1 for i in range(len(self.cluster_ids)))' % (_MM, _MM)),
+              ('template-ids-exist', 'all(all(0 <= %s[c][j] and %s[c][j] < len(%s) for j in range(len(%s[c]))) for c in range(len(%s)))' % (_MM, _MM, _TD, _MM, _MM))],
+    result='obj[ClusterStore]',
+    loops={0: {'idx': 'c', 'invariant': [
+        ('shape', '0 <= c and c <= len(%s) and len(data) == len(%s) and width(data) == self.n_samples_waveforms and depth(data) == self.n_channels' % (_MM, _MM)),
+        ('clusters-done', 'all(%s for q in range(c))' % _CW('data', 'q')),
+        ('clusters-to-do-still-zero', 'all(all(data[q][s] == zero_cell(self.n_channels) for s in range(self.n_samples_waveforms)) for q in range(c, len(%s)))' % _MM)]}},
+    ensures=[('dense-store-with-one-block-per-cluster-id', 'result.cols is None and len(result.data) == len(%s) and width(result.data) == self.n_samples_waveforms and depth(result.data) == self.n_channels' % _MM),
+             ('single-template-clusters-carry-that-template-unchanged-others-as-placed', 'all(%s for q in range(len(%s)))' % (_CW('result.data', 'q'), _MM))])
